@@ -379,3 +379,28 @@ def engine_buflaws(tier, seed):
     for d in res['divergences']:
         d['tag'] = 'C14'
     return res
+
+
+SOCKADDR_DEVIATIONS = ['UnixFullLength']
+SOCKADDR_CFG = """SPECIFICATION Spec
+CONSTANTS
+    P = 108
+    PathLens <- LensDef
+    Octets <- IpsDef
+    Ports <- PortsDef
+    Words <- WordsDef
+    Dev = %s
+INVARIANTS
+    ExactStructure
+    FitsStorage
+    ExportCase
+CHECK_DEADLOCK FALSE
+"""
+
+
+def engine_sockaddr(tier, seed):
+    dev = deviations_for(SOCKADDR_DEVIATIONS)
+    res = engine_cases('sockaddr', 'MC_SockAddr', SOCKADDR_CFG % tla_set(dev), 'replay_sockaddr', tier, seed, model='SockAddr')
+    for d in res['divergences']:
+        d['tag'] = 'C16'
+    return res
